@@ -161,9 +161,14 @@ def run_case(c, F, femio):
             rows = [e[0] for e in spec['entries']]
             cols = [e[1] for e in spec['entries']]
             vals = [fl(e[2]) for e in spec['entries']]
-            if spec['format'] == 'csr':
-                # canonical CSR built by hand so that stored zeros stay stored
-                order = sorted(range(len(rows)), key=lambda t: (rows[t], cols[t]))
+            if spec['format'] in ('csr', 'csr_unsorted'):
+                # CSR built by hand so that stored zeros stay stored; 'csr_unsorted'
+                # keeps the (shuffled) entry order inside each row: legitimate,
+                # non-canonical storage (has_sorted_indices == False)
+                if spec['format'] == 'csr':
+                    order = sorted(range(len(rows)), key=lambda t: (rows[t], cols[t]))
+                else:
+                    order = sorted(range(len(rows)), key=lambda t: rows[t])
                 indptr = [0] * (shape[0] + 1)
                 for t in order:
                     indptr[rows[t] + 1] += 1
@@ -179,9 +184,9 @@ def run_case(c, F, femio):
             mats.append(m)
 
         def snap(m):
-            if sp.issparse(m) and m.format == 'csr':
-                return (m.data.tobytes(), m.indices.tobytes(), m.indptr.tobytes())
-            return (m.data.tobytes(), m.row.tobytes(), m.col.tobytes())
+            # the VALUE of the caller's matrix (scipy may canonicalise the storage
+            # of a non-canonical input in place; that is not a change of value)
+            return np.asarray(m.toarray(), dtype=float).tobytes()
         s0 = [snap(m) for m in mats]
         out = F.align_nnz(mats)
         r['inputs_unchanged'] = [snap(m) for m in mats] == s0
